@@ -48,6 +48,7 @@ ChunkOf(id) ==
       [] id = "s" -> [descr |-> <<"S", "lt">>, rows |-> <<61>>]
       [] id = "f" -> [descr |-> <<"F", "lt">>, rows |-> <<71, 72>>]
       [] id = "r" -> [descr |-> <<"R", "lt">>, rows |-> <<81>>]
+      [] id = "g" -> [descr |-> <<"D", "lt">>, rows |-> <<901>>]        \* compatible, BIG: one block token
 NoChunk == [descr |-> NoDescr, rows |-> <<>>]
 
 \* `err` is the outcome the specification chose (the harness ignores it: it records the real one)
@@ -75,6 +76,7 @@ ObjStep(o, e) ==
                             ELSE [held |-> IF handles[e.h].fresh THEN <<files'[e.p].delim, files'[e.p].descr>> ELSE o.held,
                                   pos  |-> "end"]
       [] e.op = "hread"  -> [o EXCEPT !.pos = IF e.sel = "all" THEN "end" ELSE "mid"]
+      [] e.op = "hdrop"  -> NoObj                          \* the object is gone: the next open makes a new one
       [] OTHER           -> o
 Log(e) == /\ Len(hist) < MaxDepth
           /\ hist' = IF KeepHist THEN Append(hist, [e EXCEPT !.err = Outcome]) ELSE Append(hist, 0)
@@ -94,6 +96,7 @@ MHWrite == "hwrite" \in Acts /\ \E h \in Handles, id \in ChunkIds :
 MHRead == "hread" \in Acts /\ \E h \in Handles, sel \in Sels :
             HReadSel(h, sel) /\ Log([Ev("hread", h, handles[h].path, "none", "none", NoChunk, "none") EXCEPT !.sel = sel])
 MHClose == "hclose" \in Acts /\ \E h \in Handles : HClose(h) /\ Log(Ev("hclose", h, handles[h].path, "none", "none", NoChunk, "none"))
+MHDrop == "hdrop" \in Acts /\ \E h \in Handles : HDrop(h) /\ Log(Ev("hdrop", h, handles[h].path, "none", "none", NoChunk, "none"))
 MCreate == "create" \in Acts /\ \E p \in Paths, id \in ChunkIds, hd \in Hdrs, dl \in Delims :
                Create(p, ChunkOf(id), hd, dl) /\ Log(Ev("write", 0, p, "none", dl, ChunkOf(id), hd))
 MOverwrite == "overwrite" \in Acts /\ \E p \in Paths, id \in ChunkIds, hd \in Hdrs, dl \in Delims :
@@ -107,7 +110,7 @@ MAppendMissing == "appendmissing" \in Acts /\ \E p \in Paths, id \in ChunkIds, h
 MReadBack == "read" \in Acts /\ \E p \in Paths : ReadBack(p) /\ Log(Ev("read", 0, p, "none", "none", NoChunk, "none"))
 MReadHeader == "readhdr" \in Acts /\ \E p \in Paths : ReadHeader(p) /\ Log(Ev("readhdr", 0, p, "none", "none", NoChunk, "none"))
 
-Next == \/ MOpen \/ MHWrite \/ MHRead \/ MHClose
+Next == \/ MOpen \/ MHWrite \/ MHRead \/ MHClose \/ MHDrop
         \/ MCreate \/ MOverwrite \/ MAppendCompatible \/ MAppendIncompatible \/ MAppendMissing
         \/ MReadBack \/ MReadHeader
 
@@ -123,7 +126,7 @@ BoundedHist == /\ Len(hist) <= MaxDepth
 \* "the file equals the concatenation of all writes and the stored row count equals the total number of rows":
 \* the rows of p are the chunks of all accepted writes to p, in order, since the last event that replaced it
 \* (a non-append write or a truncating open) - on the running concatenation ...
-ConcatInv == \A p \in Paths : files[p].rows = cat[p] /\ files[p].size = Len(cat[p])
+ConcatInv == \A p \in Paths : files[p].rows = cat[p] /\ files[p].size = RowCount(cat[p])
 \* ... and stated directly on the recorded history (needs KeepHist)
 RECURSIVE Fold(_, _)
 Fold(p, k) ==
